@@ -35,6 +35,7 @@ first_missed = {
  'C14-c': 'sparse_matrix was outside the first version; sparse.pauli_string / sparse.pauli_sum (every string incl. 2-4 Y factors, symbolic coefficients, scipy.sparse model) added afterwards',
  'C14-d': 'simulate_expectation_values was not exercised (only expectation_from_state_vector / density_matrix on given states); expect.simulator_arguments.* (non-default initial states, qubit orders, sweeps) added afterwards',
  'C06-c': 'add_dynamical_decoupling was outside the first version; dynamical_decoupling.chain / chain_meas (pulses pulled through chains of two-qubit Cliffords to a wall, every schema, symbolic wall exponents; solver-driven bounded exploration) added afterwards',
+ 'C08-e': 'operation equality was only checked for gate families whose qubit interchangeability is fixed; equality.operations_exchange_param (PhasedFSimGate / FSimGate / PhasedISwapPowGate, symbolic angles and special values of theta) added afterwards',
  'C19-b': 'the concrete KAK fall-back menu only had gates with interaction (x,0,0); matrix-only gates with generic coefficients added afterwards',
 }
 still = {
